@@ -72,6 +72,15 @@ func (w *bufferedResponseWriter) Header() http.Header {
 }
 
 func (w *bufferedResponseWriter) WriteHeader(statusCode int) {
+	if statusCode >= 100 && statusCode <= 199 && statusCode != http.StatusSwitchingProtocols {
+		// Informational responses are not the final status; pass them
+		// straight through rather than latching them.
+		if !w.headerWritten {
+			w.ResponseWriter.WriteHeader(statusCode)
+		}
+		return
+	}
+
 	if !w.headerWritten {
 		w.statusCode = statusCode
 		w.headerWritten = true
